@@ -13,6 +13,9 @@ EXTENDS Integers, Sequences, FiniteSets, TLC, Json, Randomization
 
 CONSTANTS
     TablePkgs,     \* import paths of the default symbol table (keys of stdlib.Symbols, read at run time)
+    LoggerPaths,   \* selector paths from a value of the table's log.Logger type to a value with Fatal methods:
+                   \* "" (the value itself) and one path per exported field or niladic method, found by
+                   \* reflection on the table (a wrapper that embeds or exposes the host's logger adds paths)
     \* Conventions the property leaves open.  The harness identifies which member of the
     \* admissible family the implementation follows (one probe each) and every behaviour
     \* must then conform to it.
@@ -297,15 +300,17 @@ EmitImp == iverdict \in {"yes", "no"} => PrintT(<<"BEH", ToJson([c |-> icase, ok
 (* alive whatever the script does with it.                                     *)
 XEntries == {"os.Exit", "log.Fatal", "log.Fatalf", "log.Fatalln", "logger.Fatal", "logger.Fatalf", "logger.Fatalln"}
 IsLoggerEntry(e) == e \in {"logger.Fatal", "logger.Fatalf", "logger.Fatalln"}
-\* where a logger value comes from: log.New, log.Default(), slog.NewLogLogger
-XSources == {"New", "Default", "SlogBridge"}
+\* where a logger value comes from: log.New, log.Default(), slog.NewLogLogger, a variable of type
+\* log.Logger (zero value), new(log.Logger)
+XSources == {"New", "Default", "SlogBridge", "ZeroVar", "NewBuiltin"}
 XVias    == {"direct", "value", "defer"}
-XCases   == {c \in [entry : XEntries, src : XSources \cup {"-"}, via : XVias, depth : 1..2, recAt : 0..2] :
+XCases   == {c \in [entry : XEntries, src : XSources \cup {"-"}, path : LoggerPaths \cup {""}, via : XVias, depth : 1..2, recAt : 0..2] :
                 /\ (IsLoggerEntry(c.entry) <=> c.src # "-")
+                /\ (~IsLoggerEntry(c.entry) => c.path = "")
                 /\ c.recAt <= c.depth}
 Mk(kind, l) == IF l = 1 THEN kind \o "1" ELSE kind \o "2"
 
-IdleCase == [entry |-> "os.Exit", src |-> "-", via |-> "direct", depth |-> 1, recAt |-> 0]
+IdleCase == [entry |-> "os.Exit", src |-> "-", path |-> "", via |-> "direct", depth |-> 1, recAt |-> 0]
 ExitIdle == xc = IdleCase /\ xstack = <<>> /\ xpanic = FALSE /\ xout = <<>> /\ xstat = "-" /\ xphase = "idle" /\ alive = TRUE
 ExitInit == xc \in XCases /\ xstack = <<>> /\ xpanic = FALSE /\ xout = <<>> /\ xstat = "run" /\ xphase = "enter" /\ alive = TRUE
 
